@@ -134,7 +134,7 @@ def cost_specs(draw, dim, families=('quad', 'rosen', 'abs', 'cos', 'plateau', 'i
     spec = dict(fam=fam, a=a, w=w, ret=draw(st.sampled_from(list(rets))))
     if fam == 'vec':
         spec['c'] = draw(st.sampled_from([0.0, 0.25, 1.0]))
-        spec['ret'] = draw(st.sampled_from(['array', 'list']))
+        spec['ret'] = 'array'
     return spec
 
 
@@ -197,7 +197,8 @@ class Constraint(object):
         elif k == 'clamp':
             i = s['i']; v[i] = min(max(v[i], F(s['lo'])), F(s['hi']))
         elif k == 'round':
-            i = s['i']; g = F(s['g']); v[i] = round(v[i] / g) * g
+            i = s['i']; g = F(s['g'])
+            if math.isfinite(v[i]): v[i] = round(v[i] / g) * g
         elif k == 'tie':
             v[s['j']] = F(s['a']) * v[s['i']] + F(s['b'])
         elif k == 'sort':
@@ -237,7 +238,7 @@ class Constraint(object):
         if k == 'clamp':
             return F(s['lo']) <= v[s['i']] <= F(s['hi'])
         if k == 'round':
-            g = F(s['g']); return v[s['i']] == round(v[s['i']] / g) * g
+            g = F(s['g']); return (not math.isfinite(v[s['i']])) or v[s['i']] == round(v[s['i']] / g) * g
         if k == 'tie':
             return v[s['j']] == F(s['a']) * v[s['i']] + F(s['b'])
         if k == 'sort':
@@ -301,7 +302,7 @@ def constraint_specs(draw, dim, box=None, symbolic=True):
             a = draw(st.sampled_from([1.0, 2.0, 0.5, -1.0])); b = draw(st.sampled_from([0.0, 1.0, -0.5]))
             spec.update(text='x%d = %r*x%d + %r' % (j, a, i, b), pred=['tie', j, i, a, b])
         else:
-            c = lo + frac() * (hi - lo)
+            c = round(lo + frac() * (hi - lo), 6)     # short decimal: survives sympy's 15-digit printing exactly
             spec.update(text='x%d = %r' % (i, c), pred=['eq', i, c])
         spec['inplace'] = False; spec['ret'] = 'same'
     return spec
@@ -341,10 +342,15 @@ PENALTY_TYPES = ['quadratic_equality', 'linear_equality', 'uniform_equality', 'q
 def cond_fn(c):
     if c['kind'] == 'coord':
         i = c['i']; v = F(c['c'])
-        return lambda x: x[i] - v
+        return lambda x: np.float64(x[i]) - v      # numpy scalar: x**2 overflows to inf instead of raising
     if c['kind'] == 'sum':
         v = F(c['c'])
-        return lambda x: float(sum(x)) - v
+        def total(x):          # plain sequential float sum: independent of the container type
+            t = 0.0            # (python >= 3.12 builtin sum() compensates for exact floats only)
+            for u in x:
+                t += float(u)
+            return np.float64(t) - v
+        return total
     raise ValueError(c)
 
 
@@ -353,7 +359,10 @@ def make_penalty(spec):
         return None
     if spec['kind'] == 'plain':
         i = spec['i']; c = F(spec['c']); k = F(spec['k'])
-        return lambda x: k * max(0.0, float(x[i]) - c) ** 2
+        def plain(x):
+            d = max(0.0, float(x[i]) - c)
+            return k * (d * d)          # multiplication overflows to inf quietly (** raises OverflowError)
+        return plain
     import mystic.penalty as mp
     dec = getattr(mp, spec['kind'])
     kw = dict(k=F(spec['k']), h=F(spec.get('h', 5)))
@@ -556,12 +565,12 @@ def get_map(name, order_seed=0):
 
 # --------------------------------------------------------------------------- boxes
 @st.composite
-def boxes(draw, dim, integer=False, allow_inf=False, same_sides=False):
+def boxes(draw, dim, integer=False, allow_inf=False, same_sides=False, degenerate=True):
     """(lo, hi) with lo <= hi; optionally integer corners (exact arithmetic for grids)"""
     def side():
         if integer:
             lo = float(draw(st.integers(-4, 2)))
-            hi = lo + float(draw(st.sampled_from([0, 1, 2, 4, 8] if not allow_inf else [1, 2, 4, 8])))
+            hi = lo + float(draw(st.sampled_from([0, 1, 2, 4, 8] if degenerate else [1, 2, 4, 8])))
         else:
             lo = draw(st.one_of(st.sampled_from([-2.0, -1.0, 0.0, -5.0]), finite_floats(-5, 2)))
             hi = lo + draw(st.one_of(st.sampled_from([0.5, 1.0, 3.0, 8.0]), finite_floats(0.1, 6)))
